@@ -9,7 +9,10 @@
    all binary kinds in the four invocation modes (operator, binary / elementwise_*, left
    assign, right assign - every variable/constant pairing), both matrix multiplications, map /
    map_mut with arbitrary scalar closures, from_iter (row / column major, tensor <-> matrix)
-   and from_iters::<2>.  Hypotheses visible in the statement: both runs complete (that the
+   and from_iters::<2>.  Hypotheses visible in the statement: the closures handed to map /
+   from_iter / from_iters only mention the element and constants (`supported`: no clone of a
+   record of ANOTHER WengertList - such streams are rejected with InconsistentHistory or a panic
+   and are covered by the correspondence check); both runs complete (that the
    element-by-element run cannot fail when the container run completes is NOT derived), and
    the compared output element is a variable on both tapes (agreement of constant-ness is NOT
    derived; the harness cross-checks it on every case).  Any commutative ring. *)
@@ -21,6 +24,7 @@ Theorem C06_elementwise_equiv :
   forall (R : Type) (ops : numops R),
   ring_theory (nzero ops) (none_ ops) (nadd ops) (nmul ops) (nsub ops) (nneg ops) (@eq R) ->
   forall prog m m' ct cenv et eenv,
+  forallb supported prog = true ->
   crun ops ([], []) 0 prog = Some (m, Ok (ct, cenv)) ->
   erun ops ([], []) 0 prog = Some (m', Ok (et, eenv)) ->
   (forall o c e, nth_error cenv o = Some c -> nth_error eenv o = Some e ->
@@ -34,7 +38,7 @@ Theorem C06_elementwise_equiv :
      nth_error (c_data c) i = Some (v, po) -> c_hist c = Some h ->
      nth_error (e_recs e) i = Some ro -> r_hist ro = Some h' ->
      nth p (sweep ops ct po) (nzero ops) = nth (r_idx rq) (sweep ops et (r_idx ro)) (nzero ops)).
-Proof. exact @elementwise_equiv_all. Qed.
+Proof. exact @elementwise_equiv. Qed.
 
 (* FULL STATEMENT aimed at (C06_constant_side_inert): with one operand constants, that operand
    influences no derivative, for binary operations AND both matrix multiplications.
@@ -59,13 +63,13 @@ Proof. exact @constant_side_inert. Qed.
 Example C06_nonvacuous :
   let prog := [ODecl true true [(0, 2)] [3; 4]%Z; ODecl true false [(0, 2)] [5; 6]%Z;
                OBinary 1 2 0 1; OBinary 2 0 2 0; OUnary true 0 0%Z 3] in
-  is_input 0 1 0 prog /\
+  forallb supported prog = true /\ is_input 0 1 0 prog /\
   exists m ct cenv m' et eenv,
     crun Zops6 ([], []) 0 prog = Some (m, Ok (ct, cenv)) /\
     erun Zops6 ([], []) 0 prog = Some (m', Ok (et, eenv)) /\
     nth 1 (sweep Zops6 ct 5) 0%Z = 7%Z /\ nth 1 (sweep Zops6 et 5) 0%Z = 7%Z.
 Proof.
-  cbv zeta. split; [left; split; [reflexivity|cbn; auto]|].
+  cbv zeta. split; [reflexivity|]. split; [left; split; [reflexivity|cbn; auto]|].
   do 6 eexists. vm_compute. repeat split; reflexivity.
 Qed.
 
@@ -74,13 +78,13 @@ Example C06_nonvacuous_matmul :
   let sh := [(0, 2); (1, 2)] in
   let prog := [ODecl false true sh [1; 2; 3; 4]%Z; ODecl false false sh [5; 6; 7; 8]%Z;
                OMatmul 0 1; OMap false (SBin 2 SX SX) 2] in
-  is_input 0 0 0 prog /\
+  forallb supported prog = true /\ is_input 0 0 0 prog /\
   exists m ct cenv m' et eenv,
     crun Zops6 ([], []) 0 prog = Some (m, Ok (ct, cenv)) /\
     erun Zops6 ([], []) 0 prog = Some (m', Ok (et, eenv)) /\
     nth 0 (sweep Zops6 ct 16) 0%Z = 190%Z /\ nth 0 (sweep Zops6 et 16) 0%Z = 190%Z.
 Proof.
-  cbv zeta. split; [left; split; [reflexivity|cbn; auto]|].
+  cbv zeta. split; [reflexivity|]. split; [left; split; [reflexivity|cbn; auto]|].
   do 6 eexists. vm_compute. repeat split; reflexivity.
 Qed.
 
